@@ -230,54 +230,113 @@ func run(args []string) error {
 
 	var from, to []string
 	seen := map[string]bool{}
+	// History discipline: every input is presented twice in a row and a third time
+	// at the end of the run (after all the other inputs), in the same worker
+	// process. The model is a pure function: the first answer is the case, an
+	// answer that differs from it is written as a further case.
+	var later []func() error
 	doFrom := func(s string, kind string) error {
 		if seen[s] {
 			return nil
 		}
 		seen[s] = true
-		ans, err := c.call("F " + hex.EncodeToString([]byte(s)))
-		if err != nil {
-			return err
-		}
-		from = append(from, Tuple(txt(s), outcomeZ(ans)))
+		req := "F " + hex.EncodeToString([]byte(s))
 		shown := s
 		if len(shown) > 80 {
 			shown = shown[:80] + "..."
 		}
-		rec("from", map[string]interface{}{"text": shown, "text_hex": hex.EncodeToString([]byte(s)), "result": ans, "kind": kind})
+		emit := func(ans string, pres int, first string) {
+			from = append(from, Tuple(txt(s), outcomeZ(ans)))
+			m := map[string]interface{}{"call": "droplet.FromString", "text": shown, "text_hex": hex.EncodeToString([]byte(s)), "result": ans, "kind": kind, "presentation": pres}
+			if pres > 1 {
+				m["first_presentation"] = first
+				hist.Add("from:answer-changed-on-repeat")
+			}
+			rec("from", m)
+		}
+		ans, err := c.call(req)
+		if err != nil {
+			return err
+		}
+		emit(ans, 1, "")
 		o.Count("from"+s, strings.HasPrefix(ans, "ok ") || ans != "err parse")
 		cls := ans
 		if strings.HasPrefix(ans, "ok ") {
 			cls = "ok"
 		}
 		hist.Add("from:" + kind + ":" + cls)
-		return nil
-	}
-	doTo := func(x uint64, kind string) error {
-		ans, err := c.call("T " + strconv.FormatUint(x, 10))
-		if err != nil {
-			return err
+		if ans == "err Hang" || ans == "err Crash" { // do not pay the watchdog again
+			return nil
 		}
-		obs := "(Err \"Panic\")"
-		back := "(Err \"none\")"
-		text := ""
-		switch {
-		case strings.HasPrefix(ans, "ok "):
-			b, _ := hex.DecodeString(ans[3:])
-			text = string(b)
-			obs = "(Ok " + txt(text) + ")"
-			a2, err := c.call("F " + ans[3:])
+		again := func(k int) error {
+			a2, err := c.call(req)
 			if err != nil {
 				return err
 			}
-			back = outcomeZ(a2)
-		case strings.HasPrefix(ans, "err "):
-			obs = "(Err " + Str(ans[4:]) + ")"
+			o.Evals++
+			if a2 != ans {
+				emit(a2, k, ans)
+			}
+			return nil
 		}
-		to = append(to, Tuple(Z(x), obs, back))
-		rec("to", map[string]interface{}{"n": fmt.Sprint(x), "text": text, "result": ans, "back": back})
+		if err := again(2); err != nil {
+			return err
+		}
+		later = append(later, func() error { return again(3) })
+		return nil
+	}
+	doTo := func(x uint64, kind string) error {
+		observe := func() (string, map[string]interface{}, error) {
+			ans, err := c.call("T " + strconv.FormatUint(x, 10))
+			if err != nil {
+				return "", nil, err
+			}
+			obs := "(Err \"Panic\")"
+			back := "(Err \"none\")"
+			text := ""
+			switch {
+			case strings.HasPrefix(ans, "ok "):
+				b, _ := hex.DecodeString(ans[3:])
+				text = string(b)
+				obs = "(Ok " + txt(text) + ")"
+				a2, err := c.call("F " + ans[3:])
+				if err != nil {
+					return "", nil, err
+				}
+				back = outcomeZ(a2)
+			case strings.HasPrefix(ans, "err "):
+				obs = "(Err " + Str(ans[4:]) + ")"
+			}
+			return Tuple(Z(x), obs, back), map[string]interface{}{"call": "droplet.ToString", "n": fmt.Sprint(x), "text": text, "result": ans, "back": back}, nil
+		}
+		t1, js, err := observe()
+		if err != nil {
+			return err
+		}
+		js["presentation"] = 1
+		to = append(to, t1)
+		rec("to", js)
 		o.Count(fmt.Sprint("to", x), x <= 1<<63-1)
 		hist.Add("to:" + kind)
+		again := func(k int) error {
+			t, js, err := observe()
+			if err != nil {
+				return err
+			}
+			o.Evals++
+			if t != t1 {
+				js["presentation"] = k
+				js["first_presentation"] = t1
+				to = append(to, t)
+				rec("to", js)
+				hist.Add("to:answer-changed-on-repeat")
+			}
+			return nil
+		}
+		if err := again(2); err != nil {
+			return err
+		}
+		later = append(later, func() error { return again(3) })
 		return nil
 	}
 
@@ -430,9 +489,16 @@ func run(args []string) error {
 		}
 	}
 
+	// third presentation of every input, after all the others
+	for _, f := range later {
+		if err := f(); err != nil {
+			return err
+		}
+	}
+
 	o.Def("cases_from", "list Z * outcome Z", from)
 	o.Def("cases_to", "Z * outcome (list Z) * outcome Z", to)
-	o.Side["rule"] = "amount strings built from the grammar [sign][digits][.digits][e[sign]digits] with boundary parts (empty parts, leading/trailing zeros, 6/7+ decimals, values around MaxInt64 droplets, exponents -40..21 and the int32 limits), a fixed list of boundary/malformed strings (spaces, '+', underscores, non-ASCII digits, several dots/exponents) and single-character mutations; exponents for which the library would build 10^exp run under a 5 s watchdog and a 4 GB address-space limit in a subprocess; ToString on boundary-biased uint64 followed by FromString; a case is non-trivial when it passes the parser (from) / is <= MaxInt64 (to); distinct by input"
+	o.Side["rule"] = "amount strings built from the grammar [sign][digits][.digits][e[sign]digits] with boundary parts (empty parts, leading/trailing zeros, 6/7+ decimals, values around MaxInt64 droplets, exponents -40..21 and the int32 limits), a fixed list of boundary/malformed strings (spaces, '+', underscores, non-ASCII digits, several dots/exponents) and single-character mutations; exponents for which the library would build 10^exp run under a 5 s watchdog and a 4 GB address-space limit in a subprocess; ToString on boundary-biased uint64 followed by FromString; every input is presented twice in a row and once more at the end of the run in the same process, an answer that changed is a further case; a case is non-trivial when it passes the parser (from) / is <= MaxInt64 (to); distinct by input"
 	o.Side["distribution"] = hist.Sorted()
 	o.Side["samples"] = samples
 	o.Side["cases"] = caseJSON
